@@ -18,7 +18,9 @@ theorem ser_prefix (v : PV) (bs : Bytes) (h : ser v = some bs) : bs ≠ [] ∧ k
   | str s =>
     simp only [ser, Option.some.injEq] at h; subst h
     exact ⟨by simp [serStr], by simp [knownPrefix, startsWith, serStr]⟩
-  | float => simp [ser] at h
+  | float r =>
+    simp only [ser, Option.some.injEq] at h; subst h
+    exact ⟨by simp, by simp [knownPrefix, startsWith]⟩
   | arr items =>
     simp only [ser] at h
     obtain ⟨tl, rfl⟩ := wrapArr_prefix h
@@ -41,7 +43,7 @@ theorem ser_some : (v : PV) → CanonV v → ∃ bs, ser v = some bs
   | .bool _, _ => ⟨_, rfl⟩
   | .int _, _ => ⟨_, rfl⟩
   | .str _, _ => ⟨_, rfl⟩
-  | .float, h => by simp [CanonV] at h
+  | .float _, _ => ⟨_, rfl⟩
   | .arr items, h => by
     obtain ⟨body, hb⟩ := serItems_some items h.1 0
     simp only [ser, hb, wrapArr]; exact ⟨_, rfl⟩
